@@ -218,7 +218,7 @@ func r131Ownership(c *an.Ctx) {
 				stores++
 				if paramIndex(f, ix.Index) >= 0 {
 					bad = "the memo of already-copied attributes registers the source attribute (" + types.ExprString(ix.Index) + "): a second visit returns the original instead of a copy"
-				} else if u, ok := an.Unparen(ix.Index).(*ast.UnaryExpr); !ok || u.Op.String() != "&" {
+				} else if !isAddrOfLocal(f, ix.Index) {
 					bad = "the memo key " + types.ExprString(ix.Index) + " is not the address of the new copy"
 				}
 			}
@@ -752,4 +752,36 @@ func r137HashFlags(c *an.Ctx) {
 	} else {
 		c.Okf(rule, f.Name, "%d paths: name appended iff !ignoreNames||ignoreFields; nothing else when ignoreFields; tags only when !ignoreTags; attribute type hashed otherwise", len(t.Paths))
 	}
+}
+
+// isAddrOfLocal: e is &local, or a local variable every definition of which is &local.
+func isAddrOfLocal(f *an.Func, e ast.Expr) bool {
+	info := f.Pkg.TypesInfo
+	e = an.Unparen(e)
+	if u, ok := e.(*ast.UnaryExpr); ok && u.Op.String() == "&" {
+		_, isIdent := an.Unparen(u.X).(*ast.Ident)
+		return isIdent && paramIndex(f, u.X) < 0
+	}
+	id, ok := e.(*ast.Ident)
+	if !ok || paramIndex(f, id) >= 0 {
+		return false
+	}
+	o := an.ObjOf(info, id)
+	defs, good := 0, 0
+	ast.Inspect(f.Decl.Body, func(n ast.Node) bool {
+		as, ok := n.(*ast.AssignStmt)
+		if !ok {
+			return true
+		}
+		for i, l := range as.Lhs {
+			if an.ObjOf(info, l) == o && i < len(as.Rhs) {
+				defs++
+				if u, ok := an.Unparen(as.Rhs[i]).(*ast.UnaryExpr); ok && u.Op.String() == "&" && paramIndex(f, u.X) < 0 {
+					good++
+				}
+			}
+		}
+		return true
+	})
+	return defs > 0 && defs == good
 }
